@@ -539,10 +539,10 @@ PulsesCanonical(ds) ==
   /\ \A k \in 1..Len(ds.pul) : AbsOf(ds.pul[k]) <= 127 /\ (k > SxFrameLen(ds.rq.fs, ds.rq.nb) => ds.pul[k] = 0)
   /\ \A b \in 1..Len(ds.sums) :
        LET bp == BlockPlan([k \in 1..SHELL |-> AbsOf(ds.pul[SHELL * (b - 1) + k])]) IN bp[1] = ds.nls[b] /\ bp[3] = ds.sums[b]
-FrameMirrorOK(rq) ==
-  LET d == SxDecFrame(rq) IN
+FrameMirrorOfOK(rq, d) ==
   (LagCanonical(d) /\ (d.idx.sig # TYPE_VOICED \/ d.idx.lag >= 0) /\ PulsesCanonical(d)) =>
      LET e == SxEncFrame(rq, d.idx, d.pul, d.rl) IN e.ops = d.ops /\ e.c = d.c /\ e.ci = d.ci /\ e.nidx = d.nidx
+FrameMirrorOK(rq) == FrameMirrorOfOK(rq, SxDecFrame(rq))
 \* MIRROR, encoder -> decoder: whatever the encoder can want, the decoder reads back symbol for symbol
 EncDecOK(rq, x, q, rl) ==
   LET e == SxEncFrame(rq, x, q, rl)
